@@ -153,6 +153,12 @@ impl Family for ReuseFam {
                 let mut n = 0usize;
                 let mut peak = 0usize;
                 let mut seq_run = 0usize;
+                // Model of the pool under the lifecycle the code has today (see the known finding):
+                // a dial inserts the new session (it stays pooled while first used), a reuse takes one
+                // out, nothing is ever returned. With d dials among b requests: pooled += 2d - b.
+                // A request that finds the model pool non-empty must not dial - that part is exact
+                // and armed; only a dial on an empty model pool falls under the known finding.
+                let mut pooled: i64 = 0;
                 for (si, step) in case.steps.iter().enumerate() {
                     let before = fwd.accepted.load(Ordering::SeqCst);
                     let established = fwd.live.load(Ordering::SeqCst);
@@ -164,6 +170,17 @@ impl Family for ReuseFam {
                             one_request(socks, target, n).await?;
                             tokio::time::sleep(Duration::from_millis(40)).await;
                             let dialled = fwd.accepted.load(Ordering::SeqCst) - before;
+                            if pooled > 0 && dialled > 0 {
+                                return Err(Fail::new(
+                                    "C13.reuse",
+                                    "C13.reuse:pooled-session-not-used",
+                                    format!(
+                                        "request #{n} (step {si}, overlapping no other request) opened {dialled} new TLS connection(s) although {pooled} session(s) dialled earlier are still pooled and healthy ({established} connections open); connections so far: {}",
+                                        fwd.accepted.load(Ordering::SeqCst)
+                                    ),
+                                ));
+                            }
+                            pooled += 2 * dialled as i64 - 1;
                             if established > 0 && dialled > 0 {
                                 let (sig, label) = if n == 2 { ("C13.r2", "C13.r2") } else { ("C13.reuse:session-not-returned-to-pool", "C13.r3+") };
                                 if !cx.tolerate(sig) {
@@ -195,6 +212,11 @@ impl Family for ReuseFam {
                                 }
                             }
                             tokio::time::sleep(Duration::from_millis(40)).await;
+                            let dialled = fwd.accepted.load(Ordering::SeqCst) - before;
+                            pooled += 2 * dialled as i64 - b as i64;
+                            if pooled < 0 {
+                                pooled = 0;
+                            }
                         }
                     }
                     let live = fwd.live.load(Ordering::SeqCst);
